@@ -144,7 +144,7 @@ def observe(text: str, schedule: bool = True, keep_project: bool = False) -> Obs
             extract(project, obs)
             obs.ok = True
     except BaseException as e:  # noqa: BLE001 - SystemExit etc. are findings for C11
-        if isinstance(e, KeyboardInterrupt):
+        if isinstance(e, KeyboardInterrupt) or type(e).__name__ == "CpuTimeout":
             raise
         obs.exc_type = type(e).__name__
         obs.exc_msg = str(e)[:300]
